@@ -2,6 +2,8 @@ import Driver.Util
 import GqlgenVerif.Model.ServerState
 import GqlgenVerif.Model.ServerStateCfg
 import GqlgenVerif.Gen.RespHeaders
+import GqlgenVerif.Gen.CollectAlias
+import GqlgenVerif.Gen.WsLoop
 /-! Line-protocol driver for C07: runs `Model/ServerState` (configured from the regenerated
 `Gen/PoolReset.lean`) on the request histories of the Go harness.
 
@@ -16,6 +18,16 @@ hdrwitness                                  run the regenerated `mergeHeaders` p
                                             configured header maps × pairs of Accept headers: `none`, or the first
                                             configuration/history whose answer differs from a fresh server's or that
                                             changes the configured map
+```
+ws <r:<hexid|->:<0|1> | e:<k>>…             a websocket session as the read-loop model sees it (a client message with its id
+                                            and whether it starts an operation; the k-th started operation sends a frame):
+                                            the ids `Model/WsLoop` (configured from Gen/WsLoop.lean) puts on the frames, and
+                                            whether each is the id of the message that started the operation
+collectwitness                              run the regenerated `*ast.Field` arm of collectFields (Gen/CollectAlias.lean) on a
+                                            grid of first-occurrence selection sets (1-9 entries, 0-3 spare cells), two
+                                            requests including different later occurrences, request 0 parked while request
+                                            1 merges: `none`, `unknown-arm`, or the first document on which request 0
+                                            resolves something else than its own selections / the document is written
 ```
 `req` answers `<class> [params] apq=<digest> qc=<digest> | spec=<same|DIFF> poolzero=<0|1> pool=<n>`.
 -/
@@ -210,6 +222,43 @@ def hdrWitness : Option String :=
       else if a.isNone then some s!"panic ResponseHeaders={name} Accept={a1}"
       else none
 
+/-- `ws` op: tokens → events of `Model/WsLoop` -/
+def wsEvents (toks : List String) : Option (List WsLoop.Ev) :=
+  toks.mapM fun t =>
+    match t.splitOn ":" with
+    | ["r", id, st] =>
+      (if id == "-" then some "" else unhexS id).map fun i => WsLoop.Ev.recv ⟨i, st == "1"⟩
+    | ["e", k] => k.toNat?.map WsLoop.Ev.emit
+    | _ => none
+
+def wsRun (evs : List WsLoop.Ev) : String :=
+  let out := (WsLoop.run Gen.WsLoop.cells {} evs).out
+  let starts := WsLoop.startMsgs evs
+  let ids := out.map fun (_, i) => match i with | some "" => "-" | some i => hexS i | none => "none"
+  let own := out.all fun (k, i) => i == (starts[k]?).map (·.id)
+  s!"{" ".intercalate ids} | spec={if own then "same" else "DIFF"}"
+
+/-- `collectwitness` op -/
+def collectWitness : String :=
+  match CollectAlias.armSem Gen.CollectAlias.fieldArm with
+  | none => "unknown-arm"
+  | some sem =>
+    let grid := (List.range 9).flatMap fun n => (List.range 4).map fun spare => (n + 1, spare)
+    let bad := grid.findSome? fun (n, spare) =>
+      let first := (List.range n).map (· + 1)
+      let h0 : CollectAlias.Heap := [⟨0, first ++ List.replicate spare 0⟩, ⟨0, [101]⟩, ⟨0, [102]⟩]
+      let todo : Nat → List CollectAlias.Slice := fun i =>
+        if i == 0 then [⟨0, n, n + spare⟩, ⟨1, 1, 1⟩] else if i == 1 then [⟨0, n, n + spare⟩, ⟨2, 1, 1⟩] else []
+      let w := CollectAlias.runW sem (fun _ => 0) ⟨h0, fun i => { todo := todo i }⟩ [0, 0, 1, 1]
+      let got := CollectAlias.readS w.heap (w.ts 0).acc
+      let want := CollectAlias.want h0 (todo 0)
+      if got != want then
+        some s!"leak first-selection-set={n} spare-capacity={spare}: request 0 (parked while request 1 merged) resolves {got} instead of {want}"
+      else if w.heap.take 3 != h0 then
+        some s!"document-written first-selection-set={n} spare-capacity={spare}: {repr (w.heap.take 3)}"
+      else none
+    bad.getD "none"
+
 def stepD (d : DState) (line : String) : DState × String :=
   match line.splitOn " " with
   | ["def", q, v, h] =>
@@ -228,6 +277,11 @@ def stepD (d : DState) (line : String) : DState × String :=
   | ["witness"] =>
     (d, match witnessFor genCfg with | some f => s!"leak {f}" | none => "none")
   | ["hdrwitness"] => (d, (hdrWitness.getD "none").replace "\n" " ")
+  | ["collectwitness"] => (d, collectWitness)
+  | "ws" :: toks =>
+    match wsEvents toks with
+    | some evs => (d, wsRun evs)
+    | none => (d, "bad-op")
   | "req" :: id :: a :: q :: rest =>
     match id.toNat?, pReq rest with
     | some id, some r =>
